@@ -269,6 +269,25 @@ def logStep (st : LogSt) (toks : List String) : LogSt × String :=
         ({ st with readers := (id, next', u) :: st.readers.filter (·.1 ≠ id) }, "ok " ++ showRecs d)
       | _ => (st, "err")
     | _, _ => (st, "bad-op")
+  | ["rwait", id] =>
+    -- a live reader starts a BLOCKING read (it parks on the HW when nothing is readable yet); the
+    -- model's readers have no thread of their own: the read is answered by the matching `rjoin`
+    match st.readers.find? (·.1 = id) with
+    | some _ => (st, "ok")
+    | none => (st, "bad-op")
+  | ["rjoin", id] =>
+    -- what the blocking read returns once something is readable: the next retained message
+    match st.readers.find? (·.1 = id) with
+    | some (_, next, u) =>
+      if next > (if u then st.l.newest else st.l.hw) then (st, "ok ") else
+      let r := if u then st.l.readUncommitted next else st.l.readCommitted next
+      match r with
+      | .ok rs =>
+        let d := rs.take 1
+        let next' := match d.getLast? with | some r => r.offset + 1 | none => next
+        ({ st with readers := (id, next', u) :: st.readers.filter (·.1 ≠ id) }, "ok " ++ showRecs d)
+      | _ => (st, "err")
+    | none => (st, "bad-op")
   | "cleanmid" :: ttl :: e :: t :: rest =>
     match ttl.toInt?, e.toNat?, t.toInt? with
     | some ttl, some e, some t =>
